@@ -93,6 +93,10 @@ def line_text(l):
                 spans["name:" + v] = (pos, pos + len(v))
                 pos += len(v) + 2
         return text, spans
+    if k in ("ifa", "wha"):
+        # a compound statement on one physical line
+        head = "if %s: " % l["c"] if k == "ifa" else "while _w(%d, %s): " % (n, l["c"])
+        return head + "%s = (%d, %s)" % (l["t"], n, group_text(l["r"])), spans
     if k == "if":
         return "if %s:" % l["c"], spans
     if k == "else":
@@ -117,7 +121,7 @@ def render(lines, init, variant):
     Variables bound on entry are parameters of f whose values are passed by the
     driver (which rope never sees); module-level assignments in the module variant."""
     out = []
-    if any(l["k"] == "whl" for l in lines):
+    if any(l["k"] in ("whl", "wha") for l in lines):
         out.append(W_PRELUDE)
     bound = [v for v in VARORDER if v in init]
     params = "".join(", " + v for v in bound)
@@ -239,6 +243,15 @@ def requests_for(rec, rnd, tier):
     variants = [v for v in VARIANTS if not (v == "module" and has_ret)]
     reqs = []
     dense = tier == "thorough"
+    if tier == "loops":
+        # control-flow focused bodies: every line range, plain function variant, default options
+        for r in rec["regions"]:
+            if r["cls"] != "unbound":
+                reqs.append({"what": "stmts", "i": r["i"], "j": r["j"], "cls": r["cls"],
+                             "params": sorted(r["params"]), "results": sorted(r["results"]),
+                             "written": sorted(r["written"]), "shapes": r["shapes"],
+                             "variant": "func", "global_": False, "similar": False, "kind": None})
+        return reqs
     for r in rec["regions"]:
         if r["cls"] == "unbound":
             continue          # outside the precondition: the original already reads an unbound name
@@ -370,6 +383,13 @@ def atoms_of(o):
             k = dict(base)
             k.update(role="extra-param-unbound-at-call", first=shapes[v]["fi"], first_at=shapes[v]["fin"])
             out.append(k)
+    for v in sig[1]:
+        # a superset of the results is fine unless the extra one may be unbound at the new function's return
+        if v in shapes and v not in q["results"] and v not in sig[0] and not shapes[v]["da"] and not shapes[v]["dw"]:
+            k = dict(base)
+            k.update(role="extra-result-unbound-at-return", first=shapes[v]["fi"], first_at=shapes[v]["fin"],
+                     after=shapes[v]["fa"])
+            out.append(k)
     uniq = []
     for k in out:
         if k not in uniq:
@@ -475,7 +495,8 @@ INVARIANTS = ["TypeOK", "WellFormed", "ExtractSound", "CallArgsBound", "ExprSoun
 def base_constants(**over):
     c = {"MaxLines": 3, "MaxDepth": 2, "Kinds": tlc.Sub("MCKindsAll"), "InitSets": tlc.Sub("MCInitTwo"),
          "StmtOn": True, "ExprOn": True, "BackEdges": True, "RequireDA": True, "ExportMin": 1,
-         "ClassOn": False, "RewriteAll": False, "CheckStale": True}
+         "ClassOn": False, "RewriteAll": False, "CheckStale": True,
+         "ReadSets": tlc.Sub("MCReadsAll"), "ForTargets": tlc.Sub("MCForAll")}
     c.update(over)
     return c
 
@@ -520,10 +541,15 @@ def main(tier):
         # model only: the bodies that are replayed in the quick tier come from the simulation below
         runs = [("bfs3-stmts-model-only", base_constants(MaxLines=3, ExprOn=False, InitSets=tlc.Sub("MCInitTwo"))),
                 ("bfs2-exprs-model-only", base_constants(MaxLines=2, StmtOn=False, ClassOn=True,
-                                                         InitSets=tlc.Sub("MCInitTwo")))]
+                                                         InitSets=tlc.Sub("MCInitTwo"))),
+                # one-line compound statements (if c: x = .. / while ..: x = ..): exported, all replayed
+                ("bfs2-inline", base_constants(MaxLines=2, ExprOn=False, Kinds=tlc.Sub("MCKindsInline"),
+                                               InitSets=tlc.Sub("MCInitTwo"), ExportMin=2))]
     else:
         # the 4-line run checks the oracle only (no export: too many bodies to replay)
         runs = [("bfs3", base_constants(MaxLines=3, ClassOn=True, InitSets=tlc.Sub("MCInitAll"))),
+                ("bfs2-inline", base_constants(MaxLines=2, ExprOn=False, Kinds=tlc.Sub("MCKindsInline"),
+                                               InitSets=tlc.Sub("MCInitAll"), ExportMin=2)),
                 ("bfs4-core-model-only", base_constants(MaxLines=4, ExprOn=False, Kinds=tlc.Sub("MCKindsCore"),
                                                         InitSets=tlc.Sub("MCInitOne")))]
     if os.environ.get("VERIF_C03_SKIP_BFS4"):      # development knob: the 4-line run does not depend on the seed
@@ -536,11 +562,24 @@ def main(tier):
         states += res.distinct
         transitions += res.generated
 
+    # 1b. control flow: every body of 4-5 lines over {for, while, else, break, continue, print} (no data flow):
+    #     loop else clauses, break / continue at every nesting
+    progs_loop = {}
+    res = run_tlc("bfs5-loops", base_constants(MaxLines=5, ExprOn=False, Kinds=tlc.Sub("MCKindsLoop"),
+                                               InitSets=tlc.Sub("MCInitBoth"), ReadSets=tlc.Sub("MCReadsNone"),
+                                               ForTargets=tlc.Sub("MCForPlain"), ExportMin=4), progs_loop)
+    tlc_runs["bfs5-loops"] = res.summary()
+    if not res.ok:
+        return tlc_failed(res, "bfs5-loops")
+    states += res.distinct
+    transitions += res.generated
+
     # 2. random simulation of bodies of 4..MaxLines lines (invariants checked on every state)
     scale = float(os.environ.get("VERIF_C03_SCALE", "1"))     # only used to enumerate finding classes
     nlines = 6 if quick else 7
     num = int((110 if quick else 450) * scale)         # traces per TLC worker
-    res = run_tlc("sim", base_constants(MaxLines=nlines, ExportMin=(2 if quick else 4), ClassOn=True), progs_sim,
+    res = run_tlc("sim", base_constants(MaxLines=nlines, ExportMin=(2 if quick else 4), ClassOn=True,
+                                        Kinds=tlc.Sub("MCKindsInline")), progs_sim,
                   simulate={"num": num}, depth=nlines + 2, seed=common.SEED + 1)
     tlc_runs["sim"] = res.summary()
     if not res.ok:
@@ -571,8 +610,8 @@ def main(tier):
     rnd.shuffle(bfs_keys)
     rnd.shuffle(sim_keys)
     if quick:
-        bfs_keys = bfs_keys[:int(1500 * scale)]
-        sim_keys = sim_keys[:int(2600 * scale)]
+        bfs_keys = bfs_keys[:int(1000 * scale)]
+        sim_keys = sim_keys[:int(2200 * scale)]
     else:
         bfs_keys = bfs_keys[:int(12000 * scale)]
         sim_keys = sim_keys[:int(8000 * scale)]
@@ -581,6 +620,8 @@ def main(tier):
         items.append({"rec": progs_bfs[k], "reqs": requests_for(progs_bfs[k], rnd, "quick")})
     for k in sim_keys:
         items.append({"rec": progs_sim[k], "reqs": requests_for(progs_sim[k], rnd, tier)})
+    for k in sorted(progs_loop):
+        items.append({"rec": progs_loop[k], "reqs": requests_for(progs_loop[k], rnd, "loops")})
     items = [it for it in items if it["reqs"]]
     for n, it in enumerate(items):
         it["keep_new"] = n % 97 == 0
@@ -637,7 +678,8 @@ def main(tier):
         "states": states, "transitions": transitions,
         "traces_validated_against_impl": requests,
         "bodies_replayed": replayed,
-        "bodies_from_tlc": {"exhaustive": len(progs_bfs), "simulated": len(progs_sim)},
+        "bodies_from_tlc": {"exhaustive": len(progs_bfs), "simulated": len(progs_sim),
+                            "exhaustive_control_flow": len(progs_loop)},
         "samples": samples,
         "exhaustive": False,
         "distinct_nontrivial": len(nontrivial),
